@@ -201,7 +201,7 @@ def deep_eq(a, b, path="$"):
     if isinstance(a, float):
         if math.isnan(a) or math.isnan(b):
             return None if math.isnan(a) and math.isnan(b) else f"{path}: {a!r} != {b!r}"
-        if a == b and math.copysign(1, a) == math.copysign(1, b):
+        if a == b:  # python equality: -0.0 == 0.0 (the property demands "an object equal to the original")
             return None
         return f"{path}: {a!r} != {b!r}"
     if isinstance(a, Decimal):
